@@ -446,3 +446,16 @@ Proof.
   - rewrite Z.add_comm, Z.mul_comm, Z_div_plus_full by lia. rewrite Z.div_small by exact Hk. lia.
   - rewrite Z.add_comm, Z.mul_comm, Z_mod_plus_full. apply Z.mod_small. exact Hk.
 Qed.
+
+(* the data_rate getter's formula applied to the register content the setter leaves gives the speed back *)
+Lemma rate_value_getter n speed : (n < 256)%N -> (speed = 1 \/ speed = 2 \/ speed = 250) ->
+  (let b := Z.land (Z.of_N (rate_value n speed)) 40 in if b =? 0 then 1 else if b =? 8 then 2 else 250) = speed.
+Proof.
+  intros Hn Hs. unfold rate_value.
+  pose proof (sweep_byteN (fun n => forallb (fun s =>
+     (let b := Z.land (Z.of_N (N.land (Z.to_N (Z.lor (Z.land (Z.of_N n) 215) s)) 191)) 40 in
+      if b =? 0 then 1 else if b =? 8 then 2 else 250) =? (if s =? 0 then 1 else if s =? 8 then 2 else 250)) [0; 8; 32])
+     ltac:(vm_compute; reflexivity) n Hn) as H.
+  cbv beta in H. rewrite forallb_forall in H. specialize (H _ (rate_bits_in speed Hs)).
+  apply Z.eqb_eq in H. cbv zeta in H. cbv zeta. rewrite H. destruct Hs as [->|[->| ->]]; reflexivity.
+Qed.
